@@ -1,6 +1,7 @@
 pub mod cache;
 pub mod chunker;
 pub mod flight;
+pub mod recon;
 pub mod session;
 pub mod shard;
 pub mod xorb;
@@ -8,7 +9,7 @@ pub mod xorb;
 use crate::core::Engine;
 
 pub fn all() -> Vec<&'static dyn Engine> {
-    vec![&chunker::ChunkerEngine, &session::SessionEngine, &flight::FlightEngine, &cache::CacheEngine, &shard::ShardEngine, &xorb::XorbEngine]
+    vec![&chunker::ChunkerEngine, &session::SessionEngine, &flight::FlightEngine, &cache::CacheEngine, &shard::ShardEngine, &xorb::XorbEngine, &recon::ReconEngine]
 }
 
 pub fn for_property(id: &str) -> Option<&'static dyn Engine> {
